@@ -62,6 +62,7 @@ func (hs *heightSub) SetHeight(height uint64) {
 		if !hs.height.CompareAndSwap(curr, height) {
 			continue
 		}
+		verifPoint(nil, "setHeight.afterCAS", height)
 
 		hs.heightSubsLk.Lock()
 		defer hs.heightSubsLk.Unlock()
@@ -80,6 +81,7 @@ func (hs *heightSub) Wait(ctx context.Context, height uint64) error {
 	if hs.Height() >= height {
 		return errElapsedHeight
 	}
+	verifPoint(ctx, "wait.afterCheck", height)
 
 	hs.heightSubsLk.Lock()
 	if hs.Height() >= height {
